@@ -109,6 +109,22 @@ func walletAuthoring(r *evid.Run, dir string, cs int64) {
 			continue
 		}
 		tx := atx.Tx
+		// the wallet hands transactions of the imported-keys account back unsigned
+		// (it treats that account as watch-only for signing): sign them here with
+		// the imported keys, the size that counts is the signed one
+		unsigned := false
+		for _, in := range tx.TxIn {
+			if len(in.Witness) == 0 && len(in.SignatureScript) == 0 {
+				unsigned = true
+			}
+		}
+		if unsigned {
+			if err := atx.AddAllInputScripts(secrets{keys: f.ImportedKeys}); err != nil {
+				log = append(log, desc+" -> cannot sign with the imported keys: "+err.Error())
+				continue
+			}
+			r.Hit("wallet-transactions-signed-by-the-harness", 1)
+		}
 		log = append(log, fmt.Sprintf("%s -> %d inputs, %d outputs", desc, len(tx.TxIn), len(tx.TxOut)))
 		// inputs: distinct ledger coins; their ledger values are the truth
 		seen := map[wire.OutPoint]bool{}
